@@ -8,6 +8,7 @@ import RQ.Props.C03
 import RQ.Props.C20
 import RQ.Props.C02
 import RQ.Props.C04
+import RQ.Props.C07
 import RQ.Model.Dist
 import RQ.Spec.Dist
 import RQ.Driver.DistEngine
